@@ -48,7 +48,7 @@ func resolveUDP(p *Prog) *udpRoles {
 			r.pConn = f.Name()
 		case ts == "sync.Mutex":
 			r.connLock = f.Name()
-		case ts == "*sync.WaitGroup" || ts == "sync.WaitGroup":
+		case ts == "*sync.WaitGroup" || ts == "sync.WaitGroup" || holdsWaitGroup(f.Type()):
 			wgFields = append(wgFields, f.Name())
 		}
 		switch t := f.Type().(type) {
@@ -140,8 +140,9 @@ func resolveUDP(p *Prog) *udpRoles {
 	}
 	// the two WaitGroups by usage: the socket reference count is the one getConn adds to (one reference per queued
 	// connection); the other one tracks the package's goroutines
-	for _, in := range findU(r.getConn, func(in ssa.Instruction) bool { return isCall(in, "(*sync.WaitGroup).Add") }) {
-		if f := wgField(in.(ssa.CallInstruction).Common().Args[0], r.LT); f != "" {
+	for _, in := range findU(r.getConn, func(in ssa.Instruction) bool { op, _, ok := wgCall(in); return ok && op == "Add" }) {
+		_, recv, _ := wgCall(in)
+		if f := wgField(recv, r.LT); f != "" {
 			r.connWG = f
 		}
 	}
@@ -198,11 +199,71 @@ func resolveUDP(p *Prog) *udpRoles {
 }
 
 func (r *udpRoles) isWG(in ssa.Instruction, method string) bool {
-	c, ok := in.(ssa.CallInstruction)
-	if !ok || callName(c) != "(*sync.WaitGroup)."+method {
+	op, recv, ok := wgCall(in)
+	if !ok || op != method {
 		return false
 	}
-	return wgField(c.Common().Args[0], r.LT) == r.connWG
+	return wgField(recv, r.LT) == r.connWG
+}
+
+// holdsWaitGroup: a (pointer to a) module struct whose only field is a WaitGroup (a reference counter type).
+func holdsWaitGroup(t types.Type) bool {
+	if pt, ok := t.Underlying().(*types.Pointer); ok {
+		t = pt.Elem()
+	}
+	st, ok := t.Underlying().(*types.Struct)
+	if !ok || st.NumFields() != 1 {
+		return false
+	}
+	ft := st.Field(0).Type().String()
+	return ft == "sync.WaitGroup" || ft == "*sync.WaitGroup"
+}
+
+// wgCall: in is Add / Done / Wait on a WaitGroup: called directly (recv is the group), or through a one-line
+// method of a type that wraps the group (recv is the wrapper: acquire() { r.wg.Add(1) }).
+func wgCall(in ssa.Instruction) (op string, recv ssa.Value, ok bool) {
+	c, isCall := in.(ssa.CallInstruction)
+	if !isCall {
+		return "", nil, false
+	}
+	n := callName(c)
+	if strings.HasPrefix(n, "(*sync.WaitGroup).") {
+		return strings.TrimPrefix(n, "(*sync.WaitGroup)."), c.Common().Args[0], true
+	}
+	sc := c.Common().StaticCallee()
+	if sc == nil || !inModule(sc) || len(sc.Blocks) != 1 || sc.Signature.Recv() == nil || !holdsWaitGroup(sc.Signature.Recv().Type()) || len(c.Common().Args) == 0 {
+		return "", nil, false
+	}
+	found := ""
+	for _, x := range sc.Blocks[0].Instrs {
+		switch y := x.(type) {
+		case *ssa.Call:
+			yn := callName(y)
+			if !strings.HasPrefix(yn, "(*sync.WaitGroup).") || found != "" {
+				return "", nil, false
+			}
+			base := y.Call.Args[0]
+			if ld, isLd := base.(*ssa.UnOp); isLd {
+				base = ld.X
+			}
+			fa, isFA := base.(*ssa.FieldAddr)
+			if !isFA || fa.X != ssa.Value(sc.Params[0]) {
+				return "", nil, false
+			}
+			found = strings.TrimPrefix(yn, "(*sync.WaitGroup).")
+			if found == "Add" {
+				if k, isC := constInt(y.Call.Args[1]); !isC || k != 1 {
+					return "", nil, false
+				}
+			}
+		case *ssa.Store, *ssa.MapUpdate, *ssa.Send, *ssa.Go, *ssa.Defer:
+			return "", nil, false
+		}
+	}
+	if found == "" {
+		return "", nil, false
+	}
+	return found, c.Common().Args[0], true
 }
 
 // wgField: the listener field the WaitGroup receiver denotes (a *sync.WaitGroup field is loaded, a sync.WaitGroup
